@@ -89,22 +89,22 @@ CHECKS = {
    ref="DESIGN.md 4/C10"),
  "C04": dict(
    technique="bounded-exhaustive + proptest names at 73 identifier positions; oracle = independent dialect lexers (differential token-stream comparison against a benign reference name) + SQLite catalogue read-back",
-   text="Exploration: every non-empty name over {a \" ` ' \\ . space $ é} up to length 2 (quick) / 3 (thorough) at each of 73 identifier positions of query and schema statements on each backend that supports the position, plus random Unicode names. The rendered statement must lex, under the engine's rules, to the reference token stream with exactly the expected identifier token(s) decoding to the supplied name; on SQLite table / column / index / alias names are read back from the engine.",
+   text="Exploration: every non-empty name over {a \" ` ' \\ . space $ é} up to length 2 (quick) / 3 (thorough) at each of 73 identifier positions of query and schema statements on each backend that supports the position, plus random Unicode names. The rendered statement must lex, under the engine's rules, to the reference token stream with exactly the expected identifier token(s) decoding to the supplied name; on SQLite table / column / index / alias names are read back from the engine. The thorough tier adds a coverage-guided libFuzzer campaign (cargo-fuzz, 8 processes of fixed -runs) through the same oracle; its executions, edge coverage and samples are folded into the evidence file (coverage.fuzz_campaigns).",
    note="MySQL backtick and Postgres double-quote identifier rules are transcribed from the manuals; unquoted-by-design positions (Func::cust, Keyword::Custom, ColumnType::Custom) are out of scope; the derive fast path is covered by C19.",
    ref="DESIGN.md 4/C04"),
  "C03": dict(
    technique="bounded-exhaustive + proptest payloads at every inlining position; oracle = independent dialect lexers/decoders (differential token-stream comparison against a benign reference payload) + SQLite engine read-back",
-   text="Exploration: every string over a 12/13-symbol quoting-relevant alphabet up to length 3 (quick) / 4 (thorough) at every text position of each backend, every char up to U+2FFF (quick) / all chars (thorough), all byte strings of length <= 2, and random Unicode text / chars / byte strings. The rendered statement must lex, under the engine's lexical rules, to the same token stream as a benign reference rendering with exactly one literal token whose decoded content equals the payload; SQLite literals are also read back through the real engine.",
+   text="Exploration: every string over a 12/13-symbol quoting-relevant alphabet up to length 3 (quick) / 4 (thorough) at every text position of each backend, every char up to U+2FFF (quick) / all chars (thorough), all byte strings of length <= 2, and random Unicode text / chars / byte strings. The rendered statement must lex, under the engine's lexical rules, to the same token stream as a benign reference rendering with exactly one literal token whose decoded content equals the payload; SQLite literals are also read back through the real engine. The thorough tier adds a coverage-guided libFuzzer campaign (cargo-fuzz, 8 processes of fixed -runs) through the same oracle; its executions, edge coverage and samples are folded into the evidence file (coverage.fuzz_campaigns).",
    note="MySQL (default sql_mode) and Postgres (standard_conforming_strings=on) lexical rules are transcribed from the manuals into the harness lexers; there is no MySQL/Postgres engine in the sandbox. SQLite 3.40.1 is the real engine.",
    ref="DESIGN.md 4/C03"),
  "C16": dict(
    technique="bounded-exhaustive enumeration + proptest random/constructed inputs; oracle = progress/non-empty/concatenation invariants and by-construction token boundaries",
-   text="Exploration: every string over a 16-symbol token-relevant alphabet up to length 4 (quick) / 6 (thorough) is enumerated, plus random Unicode strings and strings constructed from quoted segments whose token boundaries are known by construction. Exhaustive within the stated bound only; no claim beyond it.",
+   text="Exploration: every string over a 16-symbol token-relevant alphabet up to length 4 (quick) / 6 (thorough) is enumerated, plus random Unicode strings and strings constructed from quoted segments whose token boundaries are known by construction. Exhaustive within the stated bound only; no claim beyond it. The thorough tier adds a coverage-guided libFuzzer campaign (cargo-fuzz, 8 processes of fixed -runs) through the same oracle; its executions, edge coverage and samples are folded into the evidence file (coverage.fuzz_campaigns).",
    note="Trusts that Tokenizer::p is the cursor (public field). A hang inside a single next() call is detected by a watchdog and confirmed by a re-run before being reported.",
    ref="DESIGN.md 4/C16"),
  "C17": dict(
    technique="bounded-exhaustive enumeration + proptest random strings; oracle = round trip unescape(escape(s)) == s",
-   text="Exploration: round trip over every string of a 19-symbol escape-relevant alphabet up to length 4 (quick) / 5 (thorough) and random Unicode strings including NUL, on the three backends.",
+   text="Exploration: round trip over every string of a 19-symbol escape-relevant alphabet up to length 4 (quick) / 5 (thorough) and random Unicode strings including NUL, on the three backends. The thorough tier adds a coverage-guided libFuzzer campaign (cargo-fuzz, 8 processes of fixed -runs) through the same oracle; its executions, edge coverage and samples are folded into the evidence file (coverage.fuzz_campaigns).",
    note="The round trip is the whole property; nothing else is trusted.",
    ref="DESIGN.md 4/C17"),
 }
